@@ -124,6 +124,22 @@ def regression_messages(s):
         ("oneof-default-member", KOneof(**{fn("u_int32"): 0})),
         ("oneof-empty-message", KOneof(e=C["Empty"]())),
     ]
+    # a PLAIN (implicit-presence) sub-message that is present but holds only defaults: received empty on the wire,
+    # assigned into with a default value, passed to the constructor, two levels deep, and beside other fields
+    # (seeded change C04-3: from_dict building the child without marking it present loses it from the bytes)
+    pm = fn("p_message", "msg")
+    m = KPlain()
+    m.parse(bytes.fromhex("8a0100"))
+    out.append(("plain-empty-message-received", m))
+    m = KPlain()
+    getattr(m, pm).x = 0
+    out.append(("plain-empty-message-assigned-default", m))
+    out.append(("plain-empty-message-ctor", KPlain(**{pm: Inner(x=0)})))
+    m = KPlain(**{pm: Inner(rec=Inner(s=""))})
+    out.append(("plain-empty-message-two-deep", m))
+    m = KPlain(p_int32_2=7)
+    getattr(m, pm).o = None
+    out.append(("plain-empty-message-optional-none", m))
     # K12: a non-empty message below a lazily created intermediate
     m = KPlain()
     getattr(m, fn("p_message", "msg")).rec.x = 5
